@@ -201,7 +201,7 @@ Definition ostep (ra : role) (au : Z) (last cur : Z) (s : ast) (i : inp) (o : ou
       match is_ok o with
       | None => None
       | Some ok =>
-          if 32 <? blen (r_name r) then (if ok then None else keep) else
+          if negb (good (r_name r)) then (if ok then None else keep) else      (* unreadable names are refused *)
           match find_role (a_roles s) (r_key r) with
           | Some (n, e) =>
               if usable n (r_name r) && negb e
